@@ -739,6 +739,7 @@ func programCheck[S comparable](t *testing.T, a alg[S]) {
 	rule := "program AST (size <= 12 quick / 60 thorough) over state " + a.name + " drawn from 46 node kinds (primitives, raw steps that write and optionally fail, map-like wrappers, " +
 		"FlatMap/Flatten/WithState/LiftM2 with value-indexed continuation tables, Map2/Zip/Ap/LiftA2/Map3, Sequence/Concat/Traverse*/FoldM, Transform(With), all eight Recover* methods) with failures injected at leaves and callbacks; " +
 		"oracle: reference interpreter s -> (value|error, s'); value / error identity / final state / executions of every raw step compared; " +
+		"the same program value is then run three more times (from s0, another drawn state, s0 again) and every run must agree with the reference; " +
 		"non-trivial iff some Recover* handles a failure whose state differs from the state the recovered program started with; distinct by (program, s0)"
 	kit.Check(t, "program/"+a.name, rule, kit.Opt{Weight: 2}, func(rt *rapid.T, rec *kit.Rec) {
 		g := &pgen{rt: rt, rec: rec}
@@ -776,6 +777,31 @@ func programCheck[S comparable](t *testing.T, a alg[S]) {
 			msg = hitsDiff(w.hits, ref.hits)
 		}
 		if msg == "" {
+			// A StateT is a value: the same program value run again - from another initial state first,
+			// then from s0 once more - must behave exactly as a freshly built one (nothing learnt in one
+			// run may leak into the next).
+			st := w.build(root)
+			s1 := a.gen(rt)
+			for pass, s := range []S{s0, s1, s0} {
+				ref2 := newRef(a)
+				v2, err2, ns2 := ref2.eval(root, s)
+				want2 := okRes(v2, ns2)
+				if err2 != nil {
+					want2 = failRes[S, int](err2, ns2)
+				}
+				w.hits = map[int]int{}
+				var got2 res[S, int]
+				rec.Guard(rt, "C17|program/"+a.name+"|rerun", func() { got2 = runST(st, s) })
+				m2 := ""
+				if d := diff(got2, want2); d != "" {
+					m2 = d + " differs"
+				} else {
+					m2 = hitsDiff(w.hits, ref2.hits)
+				}
+				if m2 != "" {
+					rec.Failf(rt, "C17|program/"+a.name+"|rerun", "program %s: run %d of the SAME StateT value (initial states s0, %v, s0), from %v: %s: library %v, reference %v (a freshly built value agreed with the reference)", desc, pass+1, s1, s, m2, got2, want2)
+				}
+			}
 			return
 		}
 		// localise: the first node in post-order (all its sub-programs agree) on which library and
